@@ -3,7 +3,7 @@ from .srv import SrvFamily
 from .fe import FeFamily
 from .c18_extra import ProxyPeerMut, BeSrvMalformed   # C18 machinery: descriptors on the backend->frontend channel
 
-PROPS_MODULES = ["C09", "C09Dispatch"]
+PROPS_MODULES = ["C09", "C09Dispatch", "ConnLoops"]
 RULE = ("family `srv` (malformed + well-formed modes): request histories with 0..40 fresh memfds attached at arbitrary positions (on "
         "requests that take none, with wrong counts, beyond the 32-descriptor limit, on garbage, in the middle of a message on the body segment `bf<n>`), files returned by value from handlers (GET_INFLIGHT_FD, GET_SHARED_OBJECT, … ids 900+), early close, teardown after the "
         "last step of every scenario; after dropping handler, endpoint and sockets the process's descriptor table is scanned "
